@@ -2,7 +2,7 @@
 import io
 import os
 
-from . import lib, wgen
+from . import lib, wgen, simfs
 
 SINKS = ['simpath', 'simstream', 'bytesio', 'realpath']
 
@@ -15,6 +15,7 @@ class Trace(object):
         self.data = b''
         self.index = None
         self.exc = None        # exception escaping the writer's with-block machinery
+        self.extents_from_walk = False
 
 
 def _size(st, sink, name, handles):
@@ -48,7 +49,7 @@ def steps_program(st, program, sink, with_index, tr, name='out.tdms', after_sess
     for k, session in enumerate(program['sessions']):
         mode = 'w' if k == 0 else 'a'
         if sink in ('simpath', 'realpath'):
-            target = name if sink == 'simpath' else os.path.join(st.realdir(), name)
+            target = (simfs.SIM_ROOT + name) if sink == 'simpath' else os.path.join(st.realdir(), name)
             kw = {'index_file': bool(with_index)}
         else:
             if name not in streams:
@@ -78,9 +79,14 @@ def steps_program(st, program, sink, with_index, tr, name='out.tdms', after_sess
                     rec['exc'] = '%s: %s' % (type(exc).__name__, exc)
                     rec['must_accept'] = wgen.must_accept(call)
                 if sink == 'realpath':
-                    # make buffered bytes visible to the size probe
-                    for f in (writer._file, writer._index_file):
-                        if f is not None:
+                    # make buffered bytes visible to the size probe.  The handles are private attributes of the writer; if
+                    # they cannot be found (renamed by a refactoring) the per-call extents of this trace are rebuilt
+                    # from a walk over the finished file instead (Trace.extents_from_walk)
+                    handles = [getattr(writer, a, None) for a in ('_file', '_index_file')]
+                    if handles[0] is None or not hasattr(handles[0], 'flush'):
+                        tr.extents_from_walk = True
+                    for f in handles:
+                        if f is not None and hasattr(f, 'flush'):
                             f.flush()
                 rec['after'] = _size(st, sink, name, streams)
                 rec['iafter'] = _size(st, sink, iname, streams) if with_index else 0
@@ -92,9 +98,37 @@ def steps_program(st, program, sink, with_index, tr, name='out.tdms', after_sess
                 yield ('call', call_no)
         tr.sessions.append((first, call_no))
         snapshot(st, sink, name, streams, tr, with_index)
+        if tr.extents_from_walk:
+            rebuild_extents(tr, with_index)
         if after_session is not None:
             after_session(tr, k)
         yield ('session', k)
+
+
+def rebuild_extents(tr, with_index):
+    """Per-call byte extents from a walk over the finished file: the k-th accepted call wrote the k-th segment."""
+    from . import parser
+    try:
+        segs = parser.parse_file(tr.data)
+    except parser.Structural:
+        return            # the structural check reports it
+    acc = [r for r in tr.calls if r['accepted']]
+    ipos = 0
+    pos = 0
+    k = 0
+    for r in tr.calls:
+        if r['accepted'] and k < len(segs):
+            sg = segs[k]
+            r['before'], r['after'] = sg['pos'], sg['end']
+            if with_index:
+                r['ibefore'] = ipos
+                ipos += sg['data_pos'] - sg['pos']
+                r['iafter'] = ipos
+            pos = sg['end']
+            k += 1
+        else:
+            r['before'] = r['after'] = pos
+            r['ibefore'] = r['iafter'] = ipos
 
 
 def snapshot(st, sink, name, streams, tr, with_index):
